@@ -16,7 +16,7 @@ Garbage(n) == /\ ~dead
                  ELSE dead' = TRUE /\ UNCHANGED <<tol, skipped>>
 CCS == ~dead /\ IF tol THEN UNCHANGED <<tol, skipped, dead>> ELSE dead' = TRUE /\ UNCHANGED <<tol, skipped>>
 Genuine == ~dead /\ tol' = FALSE /\ UNCHANGED <<skipped, dead>>
-TraceInit == tid \in 1..N /\ l = 2 /\ tol = TRUE /\ skipped = 0 /\ dead = FALSE
+TraceInit == tid \in 1..N /\ l = 2 /\ tol = Traces[tid][1].offered /\ skipped = 0 /\ dead = FALSE
 TraceNext == /\ l <= Len(T) /\ l' = l + 1 /\ UNCHANGED tid
              /\ CASE E.ev = "g" -> Garbage(E.n) [] E.ev = "ccs" -> CCS [] E.ev = "gen" -> Genuine [] OTHER -> FALSE
              /\ dead' = E.dead
